@@ -444,3 +444,96 @@ pub fn parse_errors(src: &Src) -> J {
     });
     json!({"name": src.name, "all": all, "first": first, "moved_all": moved_all, "moved_first": moved_first})
 }
+
+/// property C14: builds the described graph through the public API and serialises it
+pub fn json_of(desc: &J, src: &Src, nodes: &[tree_sitter::Node]) -> J {
+    let r = std::panic::catch_unwind(std::panic::AssertUnwindSafe(|| {
+        let mut graph = Graph::new();
+        let n = desc["n"].as_u64().unwrap_or(0) as usize;
+        let refs: Vec<_> = (0..n).map(|_| graph.add_graph_node()).collect();
+        for (i, nd) in desc["nodes"].as_array().cloned().unwrap_or_default().iter().enumerate() {
+            if let Some(m) = nd["attrs"].as_object() {
+                for (k, v) in m {
+                    // SAFETY of lifetimes: syntax nodes come from `src`, which outlives the graph
+                    let val = value_in_any(v, &mut graph, nodes).expect("value");
+                    let _ = graph[refs[i]].attributes.add(Identifier::from(k.as_str()), val);
+                }
+            }
+            for e in nd["out"].as_array().cloned().unwrap_or_default() {
+                let sink = refs[e["sink"].as_u64().unwrap() as usize];
+                let _ = graph[refs[i]].add_edge(sink);
+                if let Some(m) = e["attrs"].as_object() {
+                    for (k, v) in m {
+                        let val = value_in_any(v, &mut graph, nodes).expect("value");
+                        let edge = graph[refs[i]].get_edge_mut(sink).expect("edge");
+                        let _ = edge.attributes.add(Identifier::from(k.as_str()), val);
+                    }
+                }
+            }
+        }
+        let mut j = serde_json::to_value(&graph).expect("serialise");
+        let text = serde_json::to_string(&graph).expect("serialise");
+        let reparsed: J = serde_json::from_str(&text).expect("valid json");
+        let valid = reparsed == j;
+        fix_syntax_ids(&mut j, src);
+        let pretty = format!("{}", graph.pretty_print());
+        let api = crate::exec::project_graph(&graph, src);
+        json!({"json": j, "valid": valid, "pretty": pretty, "api": api})
+    }));
+    r.unwrap_or_else(|p| json!({"panic": panic_msg(p)}))
+}
+
+fn value_in_any<'tree>(v: &J, graph: &mut Graph<'tree>, nodes: &[tree_sitter::Node<'tree>]) -> Option<Value> {
+    Some(match v["t"].as_str()? {
+        "syn" => Value::SyntaxNode(graph.add_syntax_node(*nodes.get((v["n"].as_u64()? as usize).checked_sub(1)?)?)),
+        "list" => Value::List(v["l"].as_array()?.iter().map(|x| value_in_any(x, graph, nodes)).collect::<Option<Vec<_>>>()?),
+        "set" => Value::Set(v["e"].as_array()?.iter().map(|x| value_in_any(x, graph, nodes)).collect::<Option<BTreeSet<_>>>()?),
+        _ => value_from_json_g(v, graph)?,
+    })
+}
+
+/// raw (truncated) syntax-node ids in the crate's JSON -> preorder indices
+fn fix_syntax_ids(j: &mut J, src: &Src) {
+    match j {
+        J::Object(m) => {
+            if m.get("type").and_then(|t| t.as_str()) == Some("syntaxNode") {
+                let id = m.get("id").and_then(|x| x.as_u64()).unwrap_or(0);
+                m.insert("id".into(), json!(src.pre_of_id32(id)));
+            }
+            for (_, v) in m.iter_mut() {
+                fix_syntax_ids(v, src);
+            }
+        }
+        J::Array(a) => {
+            for v in a.iter_mut() {
+                fix_syntax_ids(v, src);
+            }
+        }
+        _ => {}
+    }
+}
+
+/// property C19: what the library computes for (DSL text, source, mode, string globals)
+pub fn libout(case: &J, srcs: &[Src]) -> J {
+    use tree_sitter_graph::{ExecutionConfig, NoCancellation, Variables};
+    let src = &srcs[case["src"].as_u64().unwrap_or(1) as usize - 1];
+    let text = case["text"].as_str().unwrap_or("");
+    let file = match crate::exec::load(text) {
+        Ok(f) => f,
+        Err(_) => return json!({"status": "rejected"}),
+    };
+    let mut globals = Variables::new();
+    if let Some(m) = case["globals"].as_object() {
+        for (k, v) in m {
+            let _ = globals.add(Identifier::from(k.as_str()), Value::String(v.as_str().unwrap_or("").to_string()));
+        }
+    }
+    let functions = Functions::stdlib();
+    let config = ExecutionConfig::new(&functions, &globals).lazy(case["lazy"].as_bool().unwrap_or(false));
+    let has_syntax_errors = !tree_sitter_graph::parse_error::ParseError::all(&src.tree).is_empty();
+    match file.execute(&src.tree, &src.text, &config, &NoCancellation) {
+        Ok(g) => json!({"status": "ok", "pretty": format!("{}", g.pretty_print()), "json": serde_json::to_value(&g).unwrap(),
+                        "syntax_errors": has_syntax_errors}),
+        Err(_) => json!({"status": "execfail", "syntax_errors": has_syntax_errors}),
+    }
+}
